@@ -279,6 +279,27 @@ CLAIMS = {
                      "and the behaviour of host-supplied stream parsers are outside any model.",
         "technique": "metamorphic / call-log oracle on the implementation with registered parsers and identity hooks; Lean lemma on the engine model's custom-dice predicate (partial)",
     },
+    "C02": {
+        "text": "compile_correct (DS/Props/C02.lean, from run_compile in DS/Proofs/FragCompile.lean): for EVERY source tree of the fragment "
+                "{numbers, all 15 binary operators, unary minus, the ternary, ||, &&} the code the compiler emits, run by the VM model's "
+                "dispatch loop, ends with exactly the value — or exactly the error — and the heap that the definitional, syntax-directed "
+                "semantics evalF prescribes; run_compile is the compositional form (from ANY frame and surrounding stack a "
+                "sub-expression's code pushes its value on the untouched stack and continues behind itself: jump offsets and stack "
+                "balance of every composition, by induction over the tree, unbounded depth). Ties: compile stream (the theorem's "
+                "compiler = the real compiler's bytecode dump, instruction by instruction, on printed trees); vm stream (dispatch loop = "
+                "rollvm.go). For the whole core language a definitional big-step semantics over SOURCE TREES (DS/Model/RefEval.lean: "
+                "evaluation order, control flow incl. break/continue, calls with dynamic scoping, computed values, templates, "
+                "containers by reference, dice under min/max mode) is compared by the ref stream with the real parser+VM on generated "
+                "trees printed by an independent printer that follows the published grammar's precedence levels with random legal "
+                "whitespace and redundant parentheses, in sequences of 1-3 programs on one VM (value / error-ness per program, "
+                "variables after the sequence). Eight parser/compiler defects found this way were repaired.",
+        "note": TB + "The theorem covers the expression fragment without variables; statements, loops, functions, computed values, "
+                     "templates and containers are decided by the ref stream against the definitional semantics (a partial def, "
+                     "executable, not a proof object). Primitive operator tables are shared between the definitional semantics and "
+                     "the VM model (they are C01's totality theorems' and the vm stream's subject). The printer is the statement of "
+                     "the grammar's precedence and of where white space is legal.",
+        "technique": "Lean 4 compiler-correctness theorem (fragment, induction over source trees) + translation-validation stream + definitional-semantics differential stream",
+    },
 }
 
 NOT_YET = {}
